@@ -337,6 +337,17 @@ func scenarios() []scenario {
 		sub(1, 0, 10200, "hit", "own", "next"),
 		sub(1, 0, 10300, "hit", "own", "prev"),
 	})
+	// merge-mining blobs with the longest chain list a blob may carry (this chain and MAX_MERGE_MINED_CHAINS-1 others):
+	// judged like any other; one chain more is not a blob
+	add("chains-max", []Op{T, L(1, 1), L(2, 2),
+		sub(1, 0, 10400, "hit", "own+15f", ""),
+		N(2),
+		sub(2, 0, 10600, "hit", "own+15f", ""),
+		N(1),
+		sub(2, 0, 10500, "hit", "own+16f", ""), // not a blob: the connection is dropped
+		sub(1, 0, 10700, "miss", "own+15f", ""),
+		sub(1, 0, 10800, "hit", "", ""),
+	})
 	return sc
 }
 
@@ -568,12 +579,14 @@ func randomScript(rng *hutil.Rng) ([]Op, result) {
 					op.Merge = "f+own"
 				case 3:
 					op.Merge = []string{"garbage", "ownown", "empty"}[rng.Intn(3)]
+				case 4:
+					op.Merge = []string{"own+15f", "own+15f", "own+16f"}[rng.Intn(3)]
 				}
 			}
 			if config.MIN_DIFFICULTY > 1 && op.Sel >= 0 {
 				// proof of work is real: most submissions are mined at the target sent with the job
 				op.Mine = []string{"hit", "hit", "any", "miss", ""}[rng.Intn(5)]
-				if rng.Intn(3) == 0 && (op.Merge == "own" || op.Merge == "own+f" || op.Merge == "f+own" || op.Merge == "ownown") {
+				if rng.Intn(3) == 0 && (op.Merge == "own" || op.Merge == "own+f" || op.Merge == "f+own" || op.Merge == "ownown" || op.Merge == "own+15f") {
 					op.Ts = []string{"prev", "next", "par+100", "par+120000"}[rng.Intn(4)]
 				}
 			}
